@@ -227,7 +227,9 @@ theorem convert_constant_set (k : String) (v : Json) (m : Mapping) (kvs : Obj) (
   `stepViolations m before after` (Spec/ConvertSpec.lean) lists the clauses of the documented contract of one mapping
   application that a pair of documents violates: deleted, constant, move (dotted paths, the rename idiom), function
   (arguments as the entries written before left them), nested `._mapper` (a sub-document, every sub-document of a
-  list; `None` / absent stay), frame.  The driver evaluates it on what the real code returned.  Here: the model of
+  list; `None` / absent stay), frame — with the precedence rules when several entries touch one key (a move wins
+  over a `._mapper` entry, a Constant and a `._mapper` entry act in the order written, a function sees the Constant
+  written before it).  The driver evaluates it on what the real code returned.  Here: the model of
   `_convert` satisfies ALL of it, for every mapping that is a Python dict (`wfMapping`: a key occurs once per nesting
   level), whatever user functions its `FunctionCall` entries carry, and every JSON value. -/
 
@@ -320,34 +322,62 @@ theorem step_contract_sensitive_example :
         (exStepAfter (.float 5 2) (.int 7) (.int 5) (.str "q") (.int 5) [("o", .null)])).length = 1 := by
   decide
 
+/-- precedence when a Constant and a `._mapper` entry share a key (entries act in the order written; the nested
+    conversion reads the sub-document that was there BEFORE the step): `s`: Constant then `._mapper` → the converted
+    sub-document wins; `p`: `._mapper` then Constant → the constant wins; `q`: Constant then `._mapper` on an absent
+    sub-document → the constant stays.  Each wrong outcome is reported. -/
+def exPrecMapping : Mapping :=
+  [("s", .const (.int 0)), ("s", .sub [("t", .const (.int 1))]),
+   ("p", .sub [("t", .const (.int 1))]), ("p", .const (.int 0)), ("q", .const (.int 9)), ("q", .sub [])]
+
+def exPrecBefore : Json := .obj [("s", .obj [("u", .int 0)]), ("p", .obj [("u", .int 0)])]
+
+theorem step_contract_precedence_example :
+    wfMapping exPrecMapping = true
+    ∧ sameResult (convert exPrecMapping exPrecBefore)
+        (.ok (.obj [("s", .obj [("u", .int 0), ("t", .int 1)]), ("p", .int 0), ("q", .int 9)])) = true
+    ∧ (stepViolations exPrecMapping exPrecBefore
+        (.obj [("s", .obj [("u", .int 0), ("t", .int 1)]), ("p", .int 0), ("q", .int 9)])).length = 0
+    ∧ (stepViolations exPrecMapping exPrecBefore (.obj [("s", .int 0), ("p", .int 0), ("q", .int 9)])).length = 1
+    ∧ (stepViolations exPrecMapping exPrecBefore
+        (.obj [("s", .obj [("u", .int 0), ("t", .int 1)]), ("p", .obj [("u", .int 0), ("t", .int 1)]), ("q", .int 9)])).length = 1
+    ∧ (stepViolations exPrecMapping exPrecBefore
+        (.obj [("s", .obj [("u", .int 0), ("t", .int 1)]), ("p", .int 0)])).length = 1 := by
+  decide
+
 /-! ### start versions below 1: the documentation ("The version is expected to start with 1", field `version:
-    PositiveInt`) leaves no room for them, yet `convert_dict` slices the history with a negative index -/
+    PositiveInt`) leaves no room for them; since typedpy commit e6a2398 `convert_dict` rejects them (before, it sliced
+    the history with a negative index: findings `invalid-version-accepted:*`, now `fixed`) -/
 
 /-- full-strength statement: a document whose `version` is an integer below 1 is not converted (it is rejected) -/
 def NonPositiveRejectedStatement : Prop :=
   ∀ (ms : List Mapping) (d : Json) (v : Int), docVersion d = some v → v < 1 → ∃ e, convertDict d ms = .error e
 
-/-- finding `invalid-version-accepted:convert_dict-nonpositive-start-version`:
-    `convert_dict({"version": 0}, [{"a": Constant(1)}, {"b": Constant(2)}])` applies the LAST mapping only
-    (`versions_mapping[-1:]`) and answers `{"version": 1, "b": 2}` — a document labelled version 1 -/
-theorem nonpositive_version_accepted_example :
+/-- `convert_dict` raises ValueError on an int (or bool) `version` below 1, whatever the history -/
+theorem convert_nonpositive_raises (ms : List Mapping) (kvs : Obj) (x : Json) (v : Int)
+    (hv : get "version" kvs = some x) (hx : versionInt x = some v) (h : v < 1) :
+    convertDict (.obj kvs) ms = .error (.other "ValueError") := by
+  simp [convertDict, startVersion, hv, hx, h]
+
+theorem nonpositive_rejected_holds : NonPositiveRejectedStatement := by
+  intro ms d v hv h
+  rcases docVersion_obj hv with ⟨kvs, rfl, hg⟩
+  exact ⟨_, convert_nonpositive_raises ms kvs (.int v) v hg rfl h⟩
+
+/-- was `invalid-version-accepted:convert_dict-nonpositive-start-version`:
+    `convert_dict({"version": 0}, [{"a": Constant(1)}, {"b": Constant(2)}])` used to apply the LAST mapping only and
+    answer `{"version": 1, "b": 2}`; now it raises ValueError -/
+theorem fixed_nonpositive_example :
     sameResult (convertDict (.obj [("version", .int 0)]) [[("a", .const (.int 1))], [("b", .const (.int 2))]])
-      (.ok (.obj [("version", .int 1), ("b", .int 2)])) = true := by
+      (.error (.other "ValueError")) = true := by
   decide
 
-theorem nonpositive_rejected_refuted : ¬ NonPositiveRejectedStatement := by
-  intro h
-  rcases h [[("a", .const (.int 1))], [("b", .const (.int 2))]] (.obj [("version", .int 0)]) 0 rfl (by decide)
-    with ⟨e, he⟩
-  have := sameResult_sound nonpositive_version_accepted_example
-  rw [he] at this
-  cases this
-
-/-- what the code does there, exactly: Python slice semantics on the history, the counter started at `v` -/
-theorem convert_nonpositive_characterised (ms : List Mapping) (kvs : Obj) (v : Int)
-    (hv : get "version" kvs = some (.int v)) :
-    convertDict (.obj kvs) ms = runSteps (pySliceFrom (v - 1) ms) v (.obj kvs) := by
-  simp [convertDict, startVersion, hv, versionInt]
+/-- … and so does the `Versioned` prologue of deserialization, also for a class with an empty history or without
+    `_versions_mapping` (was `invalid-version-accepted:deserialize-nonpositive-start-version`) -/
+theorem deser_nonpositive_raises {α} (rest : Json → α) (ms : Option (List Mapping)) (kvs : Obj) (x : Json) (v : Int)
+    (hv : get "version" kvs = some x) (hx : versionInt x = some v) (h : v < 1) :
+    deserVersioned rest ms (.obj kvs) = .error (.other "ValueError") := by
+  simp [deserVersioned, hv, nonPositiveVersion, hx, h]
 
 /-! ### "leaves its input intact", proved on the heap
 
@@ -452,7 +482,8 @@ theorem versioned_deser_equiv {α} (rest : Json → α) (ms : Option (List Mappi
     | nil => rw [hnil _ h]
     | cons m r =>
       simp only [Option.getD_some] at h hid
-      simp only [deserVersioned, hg, hg', h, hid, bindE_ok]
+      simp only [deserVersioned, hg, hg', h, hid, bindE_ok, nonPositiveVersion_int h1,
+        nonPositiveVersion_int (v := max v ((((some (m :: r)).getD []).length : Int) + 1)) (by omega), Bool.false_eq_true, if_false]
 
 /-- and it yields `rest` of the converted document -/
 theorem versioned_deser_result {α} (rest : Json → α) (ms : Option (List Mapping)) (d d' : Json) (v : Int)
@@ -464,13 +495,13 @@ theorem versioned_deser_result {α} (rest : Json → α) (ms : Option (List Mapp
     cases hx; rfl
   rcases docVersion_obj hv with ⟨kvs, rfl, hg⟩
   cases ms with
-  | none => rw [hnil _ h]; simp only [deserVersioned, hg]
+  | none => rw [hnil _ h]; simp only [deserVersioned, hg, nonPositiveVersion_int h1, Bool.false_eq_true, if_false]
   | some l =>
     cases l with
-    | nil => rw [hnil _ h]; simp only [deserVersioned, hg]
+    | nil => rw [hnil _ h]; simp only [deserVersioned, hg, nonPositiveVersion_int h1, Bool.false_eq_true, if_false]
     | cons m r =>
       simp only [Option.getD_some] at h
-      simp only [deserVersioned, hg, h, bindE_ok]
+      simp only [deserVersioned, hg, h, bindE_ok, nonPositiveVersion_int h1, Bool.false_eq_true, if_false]
 
 /-- **versioned_deser_extras**: the undeclared keys a `Versioned` class keeps (`keep_undefined`, additional
     properties) when deserializing an old document are exactly the undeclared keys of the *converted* document:
@@ -522,16 +553,17 @@ def ComposeStatement : Prop :=
 /-- full-strength deserialization statement for the default (empty) history of a `Versioned` class that does
     not define `_versions_mapping`: a document with a `version` key deserializes as itself -/
 def DeserDefaultHistoryStatement : Prop :=
-  ∀ (rest : Json → Json) (d : Json) (v : Int), docVersion d = some v → deserVersioned rest none d = .ok (rest d)
+  ∀ (rest : Json → Json) (d : Json) (v : Int), docVersion d = some v → 1 ≤ v →
+    deserVersioned rest none d = .ok (rest d)
 
 theorem version_statement_holds : VersionStatement := convert_version
 
 theorem compose_statement_holds : ComposeStatement := convert_compose
 
 theorem deser_default_history_holds : DeserDefaultHistoryStatement := by
-  intro rest d v hv
+  intro rest d v hv h1
   rcases docVersion_obj hv with ⟨kvs, rfl, hg⟩
-  simp only [deserVersioned, hg]
+  simp only [deserVersioned, hg, nonPositiveVersion_int h1, Bool.false_eq_true, if_false]
 
 /-! ### the inputs that refuted the statements before f017e49, now positive (kernel-evaluated) -/
 
